@@ -146,6 +146,11 @@ class ModuleInfo:
         self.order: List[str] = []                               # binding order of top-level names
         self._scan()
 
+    def rescan(self):
+        """after the tree was normalised in place"""
+        self.imports, self.star_imports, self.classes, self.functions, self.assigns, self.all, self.order = {}, [], {}, {}, {}, None, []
+        self._scan()
+
     def _scan(self):
         for st in self.tree.body:
             if isinstance(st, ast.Import):
@@ -203,6 +208,13 @@ class SourceModel:
         self.roots = roots or ROOT_MODULES
         for r in self.roots:
             self._load(r, required=True)
+        self.normalisation = {'enabled': False, 'reason': 'switched off'}
+        if os.environ.get('MXSA_NO_NORMALISE') != '1':
+            from .normalise import normalise
+            self.normalisation = normalise(self)
+            for name in self.normalisation.get('changed_modules', []):
+                self.modules[name].rescan()
+            self.__dict__.pop('_ns_cache', None)
         self._link_classes()
         self._collect_functions()
 
